@@ -65,6 +65,7 @@ func c18History(r *rand.Rand, n int) Case {
 	}
 	// the document OBJECT currently stored under a name (a caller may re-register the very object, e.g. to re-tag it)
 	objs := map[string]dom.ContainerBuilder{}
+	tagPool := append(make([]string, 0, 8), c18Tags...)
 	for i := 0; i < n; i++ {
 		pn := guard(func() {
 			switch r.Intn(10) {
@@ -76,6 +77,17 @@ func c18History(r *rand.Rand, n int) Case {
 					if r.Intn(3) == 0 {
 						tags = append(tags, t)
 					}
+				}
+				if r.Intn(3) == 0 {
+					// the caller spreads a prefix of one slice it keeps using (spare capacity behind the prefix): the
+					// slice is the caller's and stays as it is
+					for i, t := range c18Tags {
+						if tagPool[i] != t {
+							fail = append(fail, fmt.Sprintf("the slice a caller passed to WithTags(s...) earlier has been written to: %v", tagPool))
+							tagPool[i] = t
+						}
+					}
+					tags = tagPool[:r.Intn(len(tagPool)+1)]
 				}
 				pol := r.Intn(4)
 				var opts []analytics.AddLayerOpt
@@ -135,6 +147,7 @@ func c18History(r *rand.Rand, n int) Case {
 				// reference
 				ex := ref.ctx[name]
 				wantOK := true
+				tags = append([]string{}, tags...) // (the reference keeps its own copy)
 				newTags := append([]string{"*"}, tags...)
 				switch {
 				case ex == nil:
@@ -198,6 +211,23 @@ func c18History(r *rand.Rand, n int) Case {
 				descs = append(descs, fmt.Sprintf("TaggedSubset(%v)", ts))
 				coqs = append(coqs, "DTagged "+gStrs(ts))
 				obs = append(obs, gOverlayObs(ov))
+				// a view belongs to whoever asked for it: editing it, also below the top level, is not an edit of the set
+				if r.Intn(3) == 0 {
+					for _, nme := range want {
+						for _, k := range sortedKeys(ref.ctx[nme].doc) {
+							if _, isMap := ref.ctx[nme].doc[k].(map[string]any); isMap {
+								ov.Put(nme, k+".written-into-the-view", dom.LeafNode("x"))
+								break
+							}
+						}
+						ov.Put(nme, "top-written-into-the-view", dom.LeafNode("y"))
+					}
+					for _, nme := range want {
+						if d := ds.NamedDocument(nme); d != nil && !reflect.DeepEqual(nodeToAny(d), any(ref.ctx[nme].doc)) {
+							fail = append(fail, "editing a view returned by TaggedSubset changed the document registered as "+nme)
+						}
+					}
+				}
 			case 7: // AsOne == TaggedSubset("*")
 				ov := ds.AsOne()
 				star := ds.TaggedSubset("*")
@@ -293,7 +323,7 @@ func c18BigReader(r *rand.Rand, idx int) Case {
 func init() {
 	register(&Prop{
 		ID:   "C18",
-		Rule: "histories of 1-25 steps over 3 names (so re-adds occur) and 3 tags: AddDocument / AddDocumentFromReader (YAML) / AddUnnamedDocument with options in {none, WithTags, MergeTags, MustCreate}, given in random order (the same tags also split over two WithTags), interleaved with TaggedSubset(ts) (incl. '*', an unknown tag and the empty request), AsOne() (must equal TaggedSubset('*')), NamedDocument(n) (incl. unknown names). After every step the return status / LayerNames + every layer's content / served document vs the Coq model and vs a Go-side plain reference; no query may panic. An eighth of the histories are mostly unnamed adds (more than ten generated names); reader adds are sometimes preceded by a rejected add of undecodable text. An eighth of the cases: the pipeline template function mergeFiles over 1-3 YAML files = their ordered append-merge. Non-trivial: history re-adds a name successfully. Distinct by Gallina term. A third of the histories use tags that contain one another; re-adds sometimes pass the very document object that is stored; every 128th case adds a reader source of more than a mebibyte (YAML or JSON).",
+		Rule: "histories of 1-25 steps over 3 names (so re-adds occur) and 3 tags: AddDocument / AddDocumentFromReader (YAML) / AddUnnamedDocument with options in {none, WithTags, MergeTags, MustCreate}, given in random order (the same tags also split over two WithTags), interleaved with TaggedSubset(ts) (incl. '*', an unknown tag and the empty request), AsOne() (must equal TaggedSubset('*')), NamedDocument(n) (incl. unknown names). After every step the return status / LayerNames + every layer's content / served document vs the Coq model and vs a Go-side plain reference; no query may panic. An eighth of the histories are mostly unnamed adds (more than ten generated names); reader adds are sometimes preceded by a rejected add of undecodable text. An eighth of the cases: the pipeline template function mergeFiles over 1-3 YAML files = their ordered append-merge. Non-trivial: history re-adds a name successfully. Distinct by Gallina term. A third of the histories use tags that contain one another; re-adds sometimes pass the very document object that is stored; every 128th case adds a reader source of more than a mebibyte (YAML or JSON). Tags spread from a prefix of one caller-owned slice with spare capacity; views edited at and below the top level before the set is queried again.",
 		Gen: func(r *rand.Rand, tier string, idx int) Case {
 			if idx%8 == 7 { // the pipeline template function mergeFiles: a document set of files, merged in order
 				o := defaultOpts()
